@@ -5,7 +5,7 @@ from xmlcanon import esc_attr, esc_text
 
 RICH = ['&', '<', '>', '"', "'", ']]>', '--', '---', '-', 'é', '中', '\U0001F600', ' ', ';', '&amp;', '&lt;', '%', '/', '=',
         '?>', '<!--', '-->', '#', '(', ')', '{', '}', '*', '+', ',', '.', ':', '@', '!', '~', '|', '_', '[', ']']
-WORDS = ['hello', 'world', 'a', 'b', 'x1', 'Text', '42', '3.5', 'multi word', 'AT&T', 'a<b', 'q"q', "it's"]
+WORDS = ['hello', 'world', 'a', 'b', 'x1', 'Text', '42', '3.5', 'multi word', 'AT&T', 'a<b', 'q"q', "it's", 'a[i[0]]>0', ']]>', 'a -> b', 'x <- y']
 COLOURS = ['red', 'blue', 'green', 'none', '#fff', 'rgb(1,2,3)']
 CLASSES = ['d-red', 'd-fill-blue', 'd-text-bigger', 'd-thick', 'd-dash', 'd-arrow', 'd-softshadow', 'd-text-bold', 'd-grid-5', 'd-stripe-10',
            'mine', 'x-y', 'd-text-italic', 'd-surround', 'd-flow', 'd-text-pre']
